@@ -453,13 +453,30 @@ PROPS["C06"]["meta"]["assumptions"].append("transform consistency: the call sequ
 PROPS["C06"]["meta"]["out"] += ["payloads on the lookup/stream path (the async reader is not executed; C04 decides the recompression pipeline)", "the requested-pyramid filter on the lookup/stream path (neither path consults it on this tree)"]
 PROPS["C02"]["harnesses"] = [h for h in PROPS["C02"]["harnesses"] if h.name != "c06_h3_stream"]
 
+
+# C02: the trait's default stream (c02_default_stream_*: futures machinery, 18 GB / 1500 s without a verdict at a 2x1 box) is out
+# of reach for CBMC; what is decided is the coordinate-transformed stream of the converting reader against its lookups (Engine B)
+def _c02_extra(prop, tier):
+	import engine_b
+	return engine_b.run_c06_transform(prop, tier, kinds=("lookup", "stream_coord", "stream_box"))
+
+
+PROPS["C02"]["extra"] = _c02_extra
+PROPS["C02"]["meta"] = {
+	"assumptions": ["the wrapped source's own stream agrees with its own lookups (that is the property for that source, not decided here)",
+		"call sequences of flip_y/swap_xy/intersect extracted from the MIR of TilesConvertReader::get_tile_data, get_bbox_tile_stream and its map_coord closure for each of the 8 (flip, swap, requested pyramid) assignments; data-dependent early exits before the source is consulted make the result inconclusive"],
+	"out": ["the trait's default stream (lookup loop over iter_coords through futures::stream: no CBMC verdict within reach; iter_coords itself is decided in C15)",
+		"the versatiles reader's chunked stream, the MBTiles SQL range query, pipeline operations (async + dyn: no verdict within reach)", "payload bytes (C04 decides the recompression pipeline)",
+		"multi-threaded execution of the stream stages (C14, not applicable)"],
+}
+
 # =============================================================================================
 # Registration: what was measured to finish on the reference tree (DESIGN.md 0.5). Harnesses that never produced a verdict
 # stay in the sources but are not run by any tier; TIER_OVERRIDE moves measured-slow ones to the thorough tier.
 # =============================================================================================
 UNREGISTERED = {
 	# async converting reader / pipeline operations (dyn dispatch + boxed futures): 5-38 GB, no verdict
-	"c06_h3_stream",
+	"c06_h3_stream", "c02_default_stream_2x1", "c02_default_stream_1x2", "c02_default_stream_2x2",
 	# Kani 0.68 internal compiler error (intrinsics.rs:243) when compiling the harness
 	"c05_h3_tile_request_1", "c05_h3_tile_request_2", "c05_h3_tile_request_5", "c05_h3_tile_request_6",
 	# decoders reading through Box<dyn ValueReader> sub-readers / from_utf8 on symbolic bytes: time-outs at the smallest bound
